@@ -5,6 +5,7 @@ options, and the NDEBUG flag.  Used by Props/C18 and Props/C19.
 import Beeb.Model.Main
 import Beeb.Model.Basic
 import Beeb.Lemmas.CatL
+import Beeb.Lemmas.FsL
 
 namespace Beeb.MainL
 open Beeb Beeb.Gen
@@ -17,9 +18,9 @@ def SameOut (a b : RunRes) : Prop :=
 
 /-- states agree except for `verbose` and `showConfig` -/
 def Sim (a b : MainState) : Prop :=
-  a.storage = b.storage ∧ a.medias = b.medias ∧ a.ctx = b.ctx ∧ a.policy = b.policy
+  a.storage = b.storage ∧ a.medias = b.medias ∧ a.ctx = b.ctx ∧ a.policy = b.policy ∧ a.images = b.images
 
-theorem Sim.rfl' (a : MainState) : Sim a a := ⟨rfl, rfl, rfl, rfl⟩
+theorem Sim.rfl' (a : MainState) : Sim a a := ⟨rfl, rfl, rfl, rfl, rfl⟩
 
 def SimR : Except RunRes MainState → Except RunRes MainState → Prop
   | .error a, .error b => a = b
@@ -28,11 +29,11 @@ def SimR : Except RunRes MainState → Except RunRes MainState → Prop
 
 theorem attachFile_sim (fs : HostFs) (nd : Bool) (arg : Bytes) (st st' : MainState) (h : Sim st st') :
     SimR (attachFile fs nd arg st) (attachFile fs nd arg st') := by
-  obtain ⟨s, ms, ctx, pol, sc, v⟩ := st
-  obtain ⟨s', ms', ctx', pol', sc', v'⟩ := st'
-  obtain ⟨h1, h2, h3, h4⟩ := h
-  simp only at h1 h2 h3 h4
-  subst h1 h2 h3 h4
+  obtain ⟨s, ms, ctx, pol, sc, v, im⟩ := st
+  obtain ⟨s', ms', ctx', pol', sc', v', im'⟩ := st'
+  obtain ⟨h1, h2, h3, h4, h5⟩ := h
+  simp only at h1 h2 h3 h4 h5
+  subst h1 h2 h3 h4 h5
   unfold attachFile
   split
   · simp [SimR]
@@ -48,26 +49,26 @@ theorem attachFile_sim (fs : HostFs) (nd : Bool) (arg : Bytes) (st st' : MainSta
         · simp [SimR]
         · split
           · simp [SimR]
-          · exact ⟨rfl, rfl, rfl, rfl⟩
+          · exact ⟨rfl, rfl, rfl, rfl, rfl⟩
       · split
         · simp [SimR]
         · split
           · simp [SimR]
-          · exact ⟨rfl, rfl, rfl, rfl⟩
+          · exact ⟨rfl, rfl, rfl, rfl, rfl⟩
 
 theorem optLoop_sim (fs : HostFs) (nd : Bool) (opts : List Opt) (st st' : MainState) (h : Sim st st') :
     SimR (optLoop fs nd opts st) (optLoop fs nd opts st') := by
   induction opts generalizing st st' with
   | nil => simpa [optLoop, SimR] using h
   | cons o more ih =>
-    obtain ⟨h1, h2, h3, h4⟩ := h
+    obtain ⟨h1, h2, h3, h4, h5⟩ := h
     cases o with
     | bad => simp [optLoop, SimR]
     | opt o arg =>
       cases o with
       | file =>
         simp only [optLoop]
-        have := attachFile_sim fs nd arg st st' ⟨h1, h2, h3, h4⟩
+        have := attachFile_sim fs nd arg st st' ⟨h1, h2, h3, h4, h5⟩
         revert this
         cases attachFile fs nd arg st <;> cases attachFile fs nd arg st' <;> simp only [SimR] <;> intro h
         · exact h
@@ -78,23 +79,23 @@ theorem optLoop_sim (fs : HostFs) (nd : Bool) (opts : List Opt) (st st' : MainSt
         simp only [optLoop]
         split
         · simp [SimR]
-        · exact ih _ _ ⟨h1, h2, by simp [h3], h4⟩
+        · exact ih _ _ ⟨h1, h2, by simp [h3], h4, h5⟩
       | drive =>
         simp only [optLoop]
         split
         · simp [SimR]
         · split
           · simp [SimR]
-          · exact ih _ _ ⟨h1, h2, by simp [h3], h4⟩
-      | driveFirst => simp only [optLoop]; exact ih _ _ ⟨h1, h2, h3, rfl⟩
-      | drivePhysical => simp only [optLoop]; exact ih _ _ ⟨h1, h2, h3, rfl⟩
-      | showConfig => simp only [optLoop]; exact ih _ _ ⟨h1, h2, h3, h4⟩
+          · exact ih _ _ ⟨h1, h2, by simp [h3], h4, h5⟩
+      | driveFirst => simp only [optLoop]; exact ih _ _ ⟨h1, h2, h3, rfl, h5⟩
+      | drivePhysical => simp only [optLoop]; exact ih _ _ ⟨h1, h2, h3, rfl, h5⟩
+      | showConfig => simp only [optLoop]; exact ih _ _ ⟨h1, h2, h3, h4, h5⟩
       | ui =>
         simp only [optLoop]
         split
         · simp [SimR]
-        · exact ih _ _ ⟨h1, h2, by simp [h3], h4⟩
-      | verbose => simp only [optLoop]; exact ih _ _ ⟨h1, h2, h3, h4⟩
+        · exact ih _ _ ⟨h1, h2, by simp [h3], h4, h5⟩
+      | verbose => simp only [optLoop]; exact ih _ _ ⟨h1, h2, h3, h4, h5⟩
       | help => simp [optLoop, SimR]
 
 theorem optLoop_append (fs : HostFs) (nd : Bool) (a b : List Opt) (st : MainState) :
@@ -138,11 +139,11 @@ theorem dfsRun_of_sim (fs : HostFs) (nd : Bool) (cols : Option Nat) (o1 o2 : Lis
   · subst h; exact ⟨rfl, rfl, rfl, rfl, rfl⟩
   · exact h.elim
   · exact h.elim
-  · obtain ⟨h1, h2, h3, h4⟩ := h
+  · obtain ⟨h1, h2, h3, h4, h5⟩ := h
     cases rest with
     | nil => exact ⟨rfl, rfl, rfl, rfl, rfl⟩
     | cons cmd more =>
-      simp only [h1, h2, h3]
+      simp only [h1, h2, h3, h5]
       split
       · exact ⟨rfl, rfl, rfl, rfl, rfl⟩
       · split
@@ -165,11 +166,11 @@ theorem insert_same (fs : HostFs) (nd : Bool) (cols : Option Nat) (a b : List Op
 
 theorem verbose_same (fs : HostFs) (nd : Bool) (cols : Option Nat) (a b : List Opt) (rest : List Bytes) :
     SameOut (dfsRun fs nd cols (a ++ [Opt.opt .verbose []] ++ b) rest) (dfsRun fs nd cols (a ++ b) rest) :=
-  insert_same fs nd cols a b rest _ (fun st => ⟨{ st with verbose := true }, by simp only [optLoop], ⟨rfl, rfl, rfl, rfl⟩⟩)
+  insert_same fs nd cols a b rest _ (fun st => ⟨{ st with verbose := true }, by simp only [optLoop], ⟨rfl, rfl, rfl, rfl, rfl⟩⟩)
 
 theorem showConfig_same (fs : HostFs) (nd : Bool) (cols : Option Nat) (a b : List Opt) (rest : List Bytes) :
     SameOut (dfsRun fs nd cols (a ++ [Opt.opt .showConfig []] ++ b) rest) (dfsRun fs nd cols (a ++ b) rest) :=
-  insert_same fs nd cols a b rest _ (fun st => ⟨{ st with showConfig := true }, by simp only [optLoop], ⟨rfl, rfl, rfl, rfl⟩⟩)
+  insert_same fs nd cols a b rest _ (fun st => ⟨{ st with showConfig := true }, by simp only [optLoop], ⟨rfl, rfl, rfl, rfl, rfl⟩⟩)
 
 /-! ### C18: `--ui` / COLUMNS -/
 
@@ -198,8 +199,14 @@ theorem dump_ui (env : Env) (ui cols a) : cmdDump (uiEnv env ui cols) a = cmdDum
 theorem dumpSector_ui (env : Env) (ui cols a) : cmdDumpSector (uiEnv env ui cols) a = cmdDumpSector env a := rfl
 theorem free_ui (env : Env) (ui cols a) : cmdFree (uiEnv env ui cols) a = cmdFree env a := rfl
 theorem sectorMap_ui (env : Env) (ui cols a) : cmdSectorMap (uiEnv env ui cols) a = cmdSectorMap env a := rfl
-theorem extractFiles_ui (env : Env) (ui cols a) : cmdExtractFiles (uiEnv env ui cols) a = cmdExtractFiles env a := rfl
-theorem extractUnused_ui (env : Env) (ui cols a) : cmdExtractUnused (uiEnv env ui cols) a = cmdExtractUnused env a := rfl
+theorem extractFiles_ui (env : Env) (ui cols a) : cmdExtractFiles (uiEnv env ui cols) a = cmdExtractFiles env a := by
+  unfold cmdExtractFiles
+  rw [Beeb.FsL.extractLoop_images (uiEnv env ui cols) env rfl]
+  rfl
+theorem extractUnused_ui (env : Env) (ui cols a) : cmdExtractUnused (uiEnv env ui cols) a = cmdExtractUnused env a := by
+  unfold cmdExtractUnused
+  rw [Beeb.FsL.unusedLoop_images (uiEnv env ui cols) env rfl]
+  rfl
 
 theorem spaceGo_ui (env : Env) (ui cols sels l out free) :
     spaceRun.go (uiEnv env ui cols) sels l out free = spaceRun.go env sels l out free := by
@@ -761,6 +768,7 @@ theorem extractUnused_nd (env : Env) (args : List Bytes) :
     NAc (cmdExtractUnused (ndEnv env false) args) →
       cmdExtractUnused (ndEnv env true) args = cmdExtractUnused (ndEnv env false) args := by
   unfold cmdExtractUnused
+  rw [Beeb.FsL.unusedLoop_images (ndEnv env true) (ndEnv env false) rfl]
   simp only [ndEnv_ctx]
   by_cases hs : env.ctx.vol.subvol.isSome = true
   · simp only [hs, if_true]; intro _; trivial
@@ -778,6 +786,7 @@ theorem extractFiles_nd (env : Env) (args : List Bytes) :
     NAc (cmdExtractFiles (ndEnv env false) args) →
       cmdExtractFiles (ndEnv env true) args = cmdExtractFiles (ndEnv env false) args := by
   unfold cmdExtractFiles
+  rw [Beeb.FsL.extractLoop_images (ndEnv env true) (ndEnv env false) rfl]
   simp only [ndEnv_ctx]
   split
   · split
@@ -844,7 +853,7 @@ theorem runCommand_nd (env : Env) (args : List Bytes) :
 /-- the environment `dfsRun` builds -/
 @[reducible] def runEnv (st : MainState) (nd : Bool) (cols : Option Nat) : Env :=
   { storage := st.storage, media := fun i => st.medias.getD i (fun _ => none),
-    ctx := st.ctx, ndebug := nd, screenCols := cols }
+    ctx := st.ctx, ndebug := nd, screenCols := cols, images := st.images }
 
 theorem runEnv_nd (st : MainState) (cols : Option Nat) (args : List Bytes) :
     (∀ r, runCommand (runEnv st false cols) args = some r → NAc r) →
